@@ -26,8 +26,20 @@ SCRIPTS = {
 SCRIPTS['e'] = ('(declare-const x Int)(assert (> (+ x 7) 7))'
                 '(assert (< x (* 7 7)))(check-sat)')
 
+SCRIPTS['f'] = ('(declare-const ca Int)(declare-const b Int)'
+                '(assert (> ca b))(check-sat)')
+
+SCRIPTS['g'] = ('(set-logic QF_BV)(declare-const x (_ BitVec 4))'
+                '(declare-const y (_ BitVec 4))(declare-const p Bool)'
+                '(declare-const q Bool)'
+                '(assert (xor (not (= x #b0110)) true))'
+                '(assert (= #b1 (bvor (bvcomp x y) ((_ extract 0 0) y))))'
+                '(assert (not (and p (xor q true))))(check-sat)')
+
 MUTSETS = {
+    'late': ['SimplifySymbolNames', 'ReplaceByVariable'],
     'arith': ['ArithmeticSimplifyConstant'],
+    'fresh': ['Constants', 'IntroduceFreshVariable'],
     'erase': ['EraseNode'],
     'core': ['EraseNode', 'ReplaceByChild', 'Constants'],
     'elim': ['EliminateVariable', 'LetSubstitution'],
@@ -77,6 +89,8 @@ KEYS = {
     'c': ['not', 'or', 'and', '=', 'xor', 'check-sat'],
     'd': ['x', '*', '+', '>', '7', 'set-logic'],
     'e': ['x', '>', '<', '+', '*', 'check-sat'],
+    'f': ['ca', 'a', 'b', '>', 'check-sat', 'Int'],
+    'g': ['x', 'y', 'p', 'q', 'xor', 'bvcomp'],
 }
 
 
@@ -236,10 +250,15 @@ def check_fixed_point(env, final):
     import copy
     from ddsmt import strategy_hierarchical, smtlib
     from ddsmt.mutator_utils import apply_simp, Simplification
+    from ddsmt import mutators as _mutators
     final = list(final)
     smtlib.collect_information(final)
-    last = strategy_hierarchical.get_passes()[-1]
-    muts = last[0] if isinstance(last, tuple) else last
+    # every enabled mutator, taken from the registries (not from the pass
+    # lists of the strategy under test)
+    names = []
+    for g, (mod, reg) in _mutators.get_all_mutators().items():
+        names.extend(reg)
+    muts = _mutators.get_mutators(names)
     level = list(final)
     order = []
     while level:
